@@ -128,25 +128,58 @@ def gen_conn_cases(ctx):
             if ctx.thorough:
                 cases.append(conn_case(cfg, script, spont, l0, policy="np", preempt=[[k, A], [k + 2, CIO]], kind=kind, order=PRODUCER_FIRST))
                 cases.append(conn_case(cfg, script, spont, l0, policy="np", preempt=[[k, CIO], [k + 1, A]], kind=kind, order=PRODUCER_FIRST))
+    # unlock() running while packets keep arriving: three packets, the application cuts in after k
+    # producer steps and the I/O thread cuts back in j steps later (between two dispatches of unlock)
+    cfg3 = {"conn": True, "virt": False, "tmo": 3}
+    sp3 = [[[0, 1, True]], [[0, 2, True]], [[0, 3, True]], [[0, 4, True]]]
+    ks = range(20, 62) if ctx.thorough else range(24, 60, 2)
+    js = (1, 2, 3, 4, 5, 6, 7, 8, 10, 12) if ctx.thorough else (2, 4, 5, 6, 8)
+    for k in ks:
+        for j in js:
+            cases.append(conn_case(cfg3, [["unlock"]], sp3, True, policy="np", preempt=[[k, A], [k + j, CIO]],
+                                   kind="lock", order=PRODUCER_FIRST))
     return cases
+
+
+SIDE_ACTS = {"in": {"R": 2, "C": 3, "X": 6, "E": 5}, "out": {"R": 12, "C": 13, "X": 16, "E": 15}}
+
+
+def gen_side(rng, uid, quiet, locked=None):
+    """One side of a bridge: what the old connector holds (packet-type messages only: ordinary
+    PDUs and class-13 messages whose to_packet() is None), what is still pending in its events
+    queue, what the device emits (any kind)."""
+    locked = (rng.random() < 0.75) if locked is None else locked
+    def pk():
+        return [13, uid.next(), True] if rng.random() < 0.3 else [0, uid.next(), True]
+    def anym():
+        r = rng.random()
+        if r < 0.2:
+            return [rng.choice([7, 8, 12]), uid.next(), False]
+        return pk()
+    held = [pk() for _ in range(rng.choice([0, 1, 2, 3]))] if locked else []
+    ev0 = [] if quiet else [anym() for _ in range(rng.choice([0, 0, 1, 2]))]
+    spont = [[anym() for _ in range(rng.choice([1, 1, 2]))] for _ in range(rng.choice([0, 1, 2, 3]))]
+    return {"locked": locked, "held": held, "ev0": ev0, "spont": spont}
 
 
 def gen_bridge_cases(ctx):
     rng, cases = ctx.rng, []
     n = 1500 if ctx.thorough else 200
-    acts = [A] * 5 + [R] * 5 + [CIO] * 4 + [XIO] * 4 + [EMIT] * 2
+    acts = [A] * 6 + [2] * 4 + [3] * 3 + [6] * 3 + [12] * 4 + [13] * 3 + [16] * 3 + [5, 15] * 2
     for i in range(n):
         uid = U.Uid()
-        held = [[0, uid.next(), True] for _ in range(rng.choice([0, 1, 2]))]
-        ev0 = [[0, uid.next(), True] for _ in range(rng.choice([0, 0, 1, 2]))]
-        spont = pkt_chunks(rng, uid, rng.choice([0, 1, 2, 3]))
-        if i % 4 == 0:
-            # nothing held, nothing pending, all traffic after __init__: must be relayed perfectly
-            held, ev0 = [], []
-            prefix = [A] * 40 + [rng.choice(acts) for _ in range(rng.choice([0, 20, 60]))]
+        quiet = (i % 3 == 0)
+        one_way = (i % 5 == 4)
+        case = {"kind": "bridge",
+                "in": gen_side(rng, uid, quiet, locked=True if one_way else None),
+                "out": gen_side(rng, uid, quiet) if not one_way else {"locked": False, "held": [], "ev0": [], "spont": []},
+                "tail": True}
+        if quiet:
+            # created on a quiet link: Bridge.__init__ runs to completion before any emission
+            case["prefix"] = [A] * 90 + [rng.choice(acts) for _ in range(rng.choice([0, 20, 60, 120]))]
         else:
-            prefix = [rng.choice(acts) for _ in range(rng.choice([0, 10, 30, 60, 100]))]
-        cases.append({"kind": "bridge", "held": held, "ev0": ev0, "spont": spont, "prefix": prefix, "tail": True})
+            case["prefix"] = [rng.choice(acts) for _ in range(rng.choice([0, 10, 30, 60, 100, 150]))]
+        cases.append(case)
     return cases
 
 
@@ -196,13 +229,17 @@ def oracle_conn(case, res):
     has_sync = any(op[0] == "sync" for op in script)
     has_cmd = any(op[0] == "cmd" for op in script)
     quiet = conn_quiet(case, res)
+    if obs.get("on_packets") is not None and obs["on_packets"] != [m[:2] + [True] for m in obs["dispatched"] if m[0] != 13]:
+        out.append(("on_packet calls differ from the packets handed to the dispatch routine", obs["dispatched"], obs["on_packets"]))
     # dispatch order / exactly once (lock mode): holds at every state when lock() is not called twice
     if lock_wf(script, bool(case.get("locked0"))):
         d, q, dl = obs["dispatched"], obs["locked_q"], pk(obs["delivered"])
         io_idle = info["pending"].get("C", "").endswith(".get")
-        if io_idle and d + q != dl:
+        if not obs["adone"]:
+            pass            # unlock() may hold a packet it has taken and not dispatched yet
+        elif io_idle and d + q != dl:
             out.append(("packets dispatched + packets held are not the packets received, in order", dl, {"dispatched": d, "held": q}))
-        if not io_idle and (d + q) != dl[:len(d + q)]:
+        if obs["adone"] and not io_idle and (d + q) != dl[:len(d + q)]:
             out.append(("packets dispatched + packets held are not a prefix of the packets received", dl, {"dispatched": d, "held": q}))
         if not obs["locked"] and q and obs["adone"] and io_idle:
             out.append(("packets stranded in the holding queue of an unlocked connector", [], q))
@@ -222,14 +259,22 @@ def oracle_conn(case, res):
     return out
 
 
+def side_msgs(side):
+    return [list(f) for f in side.get("held", [])] + [list(f) for f in side.get("ev0", [])] \
+        + [list(f) for f in U.msgs_of(side.get("spont", []))]
+
+
 def bridge_class(case, res):
-    """The failing case belongs to the known class iff the bridge was created while packets were
-    held / pending in the old connector, or while the device was emitting."""
+    """The failing case belongs to the known class iff the bridge was created under traffic:
+    an event was pending in an old connector's queue, or a device emitted before
+    Bridge.__init__ returned.  (Held messages alone do not put a case in the class: on a
+    quiet link they must be relayed first, in order -- C05_bridge_quiet_link.)"""
     sched = res["sched"]
     done_at = res["info"].get("done_at")
     last_a = done_at if done_at is not None else len(sched)      # index at which Bridge.__init__ returned
-    first_emit = min([i for i, a in enumerate(sched) if a == EMIT], default=None)
-    under_traffic = bool(case.get("held")) or bool(case.get("ev0")) or (first_emit is not None and first_emit < last_a)
+    first_emit = min([i for i, a in enumerate(sched) if a in (5, 15)], default=None)
+    pending = any(case.get(k, {}).get("ev0") for k in ("in", "out"))
+    under_traffic = pending or (first_emit is not None and first_emit < last_a)
     return KEY_BRIDGE if under_traffic else None
 
 
@@ -238,27 +283,33 @@ def oracle_bridge(case, res):
     if "error" in res:
         return [("driver error: " + res["error"], None, res.get("tb"), None)]
     obs, info = res["obs"], res["info"]
-    allm = [list(f) for f in case.get("held", [])] + [list(f) for f in case.get("ev0", [])] + [list(f) for f in U.msgs_of(case.get("spont", []))]
-    if info["crashed"] or obs["dead"]:
+    if info["crashed"] or obs["in"]["dead"] or obs["out"]["dead"]:
         out.append(("a thread died while the bridge was being created", {}, info["crashed"], None))
-    peer = obs["peer"]
-    if len({tuple(m) for m in peer}) != len(peer):
-        out.append(("a message was relayed twice", None, peer, None))
-    quiet = (not res["capped"]) and obs["done"] and not obs["ev_o"] and not obs["ev_w"] and info["wire_left"] == 0 \
-        and info["spont_left"] == 0 and all(l.endswith(".get") or l.endswith(".read") for l in info["pending"].values())
-    if quiet:
-        everything = sorted(map(tuple, peer + obs["lost"] + obs["lq"]))
-        if everything != sorted(map(tuple, allm)):
-            out.append(("a message vanished or appeared (relayed + handled by the old connector + held != emitted)", allm,
-                        {"peer": peer, "old connector": obs["lost"], "held": obs["lq"]}, None))
-        if peer != allm:
-            out.append(("the bridge did not relay every message exactly once in order", allm,
-                        {"peer": peer, "handled by the old connector instead": obs["lost"], "left in the holding queue": obs["lq"]},
-                        bridge_class(case, res)))
-    else:
-        sub = [m for m in allm if m in peer]
-        if sub != peer and bridge_class(case, res) is None:
-            out.append(("messages relayed out of order", sub, peer, None))
+    quiet = (not res["capped"]) and obs["done"] and info["wire_left"] == 0 and info["spont_left"] == 0 \
+        and all(not obs[k]["ev_o"] and not obs[k]["ev_w"] for k in ("in", "out")) \
+        and all(l.endswith(".get") or l.endswith(".read") for l in info["pending"].values())
+    for k in ("in", "out"):
+        o = obs[k]
+        allm = side_msgs(case.get(k, {}))
+        peer = o["peer"]
+        if len({tuple(m) for m in peer}) != len(peer):
+            out.append(("%s side: a message was relayed twice" % k, None, peer, None))
+        if o["on_packets"] != [m[:2] + [True] for m in o["lost"] if m[0] != 13]:
+            out.append(("%s side: on_packet calls of the old connector differ from its packet dispatches" % k, o["lost"], o["on_packets"], None))
+        if quiet:
+            handled = [m for m in o["deliv_o"] if not m[2]]          # non-packet messages processed by the old connector
+            everything = sorted(map(tuple, peer + o["lost"] + handled + o["lq"]))
+            if everything != sorted(map(tuple, allm)):
+                out.append(("%s side: a message vanished or appeared (relayed + handled by the old connector + held != emitted)" % k, allm,
+                            {"peer": peer, "old connector": o["lost"] + handled, "held": o["lq"]}, None))
+            if peer != allm:
+                out.append(("%s side: the bridge did not relay every message exactly once in order" % k, allm,
+                            {"peer": peer, "handled by the old connector instead": o["lost"] + handled, "left in the holding queue": o["lq"]},
+                            bridge_class(case, res)))
+        else:
+            sub = [m for m in allm if m in peer]
+            if sub != peer and bridge_class(case, res) is None:
+                out.append(("%s side: messages relayed out of order" % k, sub, peer, None))
     return out
 
 
@@ -266,13 +317,23 @@ def oracle_bridge(case, res):
 # Coq literals of bridge cases
 # ---------------------------------------------------------------------------------------
 
+def c_side(side, default_locked):
+    ml = lambda l: C.clist([U.c_msg(m) for m in l])
+    return "(%s, %s, %s, %s)" % (C.cbool(side.get("locked", default_locked)), ml(side.get("held", [])),
+                                 ml(side.get("ev0", [])), U.c_chunks(side.get("spont", [])))
+
+
+def c_sobs(o):
+    ml = lambda l: C.clist([U.c_msg(m) for m in l])
+    return "(mkSO %s %s %s %s %s %s %s %s %s)" % (ml(o["peer"]), ml(o["lost"]), ml(o["lq"]), ml(o["deliv_o"]), ml(o["deliv_w"]),
+                                                ml(o["ev_o"]), ml(o["ev_w"]), C.cbool(o["locked"]), C.cbool(o["dead"]))
+
+
 def c_bcase(case, res, legacy_ctor=False):
     o = res["obs"]
-    ml = lambda l: C.clist([U.c_msg(m) for m in l])
-    ob = "(mkBO %s %s %s %s %s %s %s %s %s %s)" % (ml(o["peer"]), ml(o["lost"]), ml(o["lq"]), ml(o["deliv_o"]), ml(o["deliv_w"]),
-                                                 ml(o["ev_o"]), ml(o["ev_w"]), C.cbool(o["locked"]), C.cbool(o["done"]), C.cbool(o["dead"]))
-    return "(%s, %s, %s, %s, %s, %s)" % (C.cbool(legacy_ctor), ml(case.get("held", [])), ml(case.get("ev0", [])),
-                                         U.c_chunks(case.get("spont", [])), C.clist(["%d" % a for a in res["sched"]]), ob)
+    return "(%s, %s, %s, %s, (%s, %s, %s))" % (
+        C.cbool(legacy_ctor), c_side(case.get("in", {}), True), c_side(case.get("out", {}), False),
+        C.clist(["%d" % a for a in res["sched"]]), c_sobs(o["in"]), c_sobs(o["out"]), C.cbool(o["done"]))
 
 
 def strip(case):
@@ -290,7 +351,7 @@ def run(ctx):
         "hand-written interleaving models coq/theories/C04/Model.v (lock, unlock, synchronous mode) and C05/Model.v (Bridge.__init__, one direction), tied to whad/device/connector.py and bridge.py by forced-schedule correspondence of this run (sampled schedules)",
         "CPython facts: one attribute load/store is atomic under the GIL; queue.Queue operations are linearizable; deque.clear() is atomic; threading.Lock is a mutex",
         "cooperative scheduler of harness/impl/C04_sched.py (replaced Queue/Lock/time names, sys.monitoring INSTRUCTION events on LOAD_ATTR/STORE_ATTR of __locked/__sync_mode/__connector/__msg_filter/__opened); Connector.__callbacks_lock is not a yield point",
-        "bridge: one direction is driven (input device -> output device); the output side is idle; packets only",
+        "bridge: both directions; held messages are packet-type (ordinary PDUs, and class-13 messages whose to_packet() is None), pending / emitted messages of any kind; the packet dispatch routine Connector.__process_pkt_message is observed (and made a yield point) by an override in the harness connector subclass",
     ]
     ctx.assumptions = [
         "lock() is not called on a connector that is already locked (it discards what is held, by design)",
@@ -342,7 +403,7 @@ def run(ctx):
     ctx.cov["evaluations"] = len(cases)
     ctx.cov["traces_validated_against_impl"] = len(t_conn) + len(t_br) - len(bad_c) - len(bad_b)
     ctx.cov["distinct_nontrivial"] = C.distinct_count(
-        [[c.get("cfg"), c.get("script"), c.get("held"), c.get("ev0"), c.get("spont"), r["sched"]] for c, r in ok
+        [[c.get("cfg"), c.get("script"), c.get("in"), c.get("out"), c.get("spont"), r["sched"]] for c, r in ok
          if len(set(r["sched"])) >= 3 and len(r["sched"]) >= 15])
     ctx.cov["rule"] = ("connector cases: lock()/unlock() sequences, [enable_synchronous, wait_packet...] and mixed scripts x packet streams x forced "
                        "schedule (random prefix + fair tail; non pre-emptive base + single / double pre-emptions). Bridge cases: held packets x "
@@ -357,7 +418,10 @@ def run(ctx):
         "cases_by_kind": kinds,
         "schedule_len": {"min": min(len(r["sched"]) for _, r in ok), "max": max(len(r["sched"]) for _, r in ok),
                          "mean": round(sum(len(r["sched"]) for _, r in ok) / max(1, len(ok)), 1)},
-        "bridge_perfect_relay": sum(1 for c, r in quiet_br if r["obs"]["peer"] == [list(f) for f in c.get("held", [])] + [list(f) for f in c.get("ev0", [])] + [list(f) for f in U.msgs_of(c.get("spont", []))]),
+        "bridge_perfect_relay": sum(1 for c, r in quiet_br if all(r["obs"][k]["peer"] == side_msgs(c.get(k, {})) for k in ("in", "out"))),
+        "bridge_held_kinds": {"pdu": sum(1 for c, _ in quiet_br for k in ("in", "out") for f in c.get(k, {}).get("held", []) if f[0] == 0),
+                              "no_scapy_counterpart": sum(1 for c, _ in quiet_br for k in ("in", "out") for f in c.get(k, {}).get("held", []) if f[0] == 13)},
+        "bridge_both_directions": sum(1 for c, _ in quiet_br if side_msgs(c.get("out", {}))),
         "bridge_in_known_class": sum(1 for c, r in quiet_br if bridge_class(c, r)),
         "bridge_outside_known_class": sum(1 for c, r in quiet_br if not bridge_class(c, r)),
         "lock_cases_ending_unlocked": sum(1 for c, r in ok if c.get("kind") == "lock" and not r["obs"]["locked"]),
@@ -398,7 +462,7 @@ def run(ctx):
 
 
 EXPECTED_LABELS = [
-    "A store locked @Connector.lock", "A store locked @Connector.unlock", "A store sync_mode @Connector.enable_synchronous",
+    "A store locked @Connector.lock", "A store locked @Connector.unlock", "A dispatch", "C dispatch", "C0 dispatch", "A store sync_mode @Connector.enable_synchronous",
     "A load sync_mode @Connector.wait_packet", "C load locked @Connector.is_locked", "C load locked @Connector.add_locked_pdu",
     "C load sync_mode @Connector.add_sync_event", "C load sync_mode @Connector.on_device_event",
     "A store connector @Device.set_connector", "A store msg_filter @Device.set_queue_filter", "A load locked @Connector.is_locked",
